@@ -18,6 +18,8 @@ Clause → theorem
   exactly the small intervals are dropped                      drop_exactly_small, drop_keeps_order
   RuntimeError iff too few                                     too_few_error_iff
   PointsPerInterval: positions partitioned                     ppi_partition
+  the Width / Number slicers' intervals ARE the pairs and masks
+  of one edge list (ties the lemmas above to `_slice`)         widthIntervals_spec, numberIntervals_spec
 
 The theorems are over an arbitrary linear order; the only side condition on the actual
 doubles is that the edge list is sorted (`List.Pairwise (· ≤ ·)`), which the harness
@@ -204,6 +206,85 @@ theorem too_few_error_iff {β : Type} (minIv : Nat) (ivs : List (Interval β)) :
     (finishSlice minIv ivs = .ok ivs ↔ ¬ ivs.length < minIv) := by
   unfold finishSlice
   by_cases h : ivs.length < minIv <;> simp [h]
+
+/-! ### the slicer functions themselves -/
+
+omit [LinearOrder α] in
+theorem edgePairs_length (l : List α) : (edgePairs l).length = l.length - 1 := by
+  induction l with
+  | nil => rfl
+  | cons a rest ih =>
+    cases rest with
+    | nil => rfl
+    | cons b rest' =>
+      simp only [edgePairs, List.length_cons] at ih ⊢
+      omega
+
+theorem ivPreds_length (lc hc lhc : Bool) (pairs : List (α × α)) :
+    (ivPreds lc hc lhc pairs).length = pairs.length := by
+  induction pairs with
+  | nil => rfl
+  | cons p rest ih =>
+    obtain ⟨lo, hi⟩ := p
+    cases rest with
+    | nil => rfl
+    | cons q rest' => simp only [ivPreds, List.length_cons] at ih ⊢; omega
+
+omit [LinearOrder α] in
+theorem zip3_proj {A B C : Type} (masks : List A) (refs : List B) (pairs : List C)
+    (h1 : masks.length = pairs.length) (h2 : refs.length = pairs.length) :
+    (masks.zip (refs.zip pairs)).map (fun x => x.2.2) = pairs ∧
+    (masks.zip (refs.zip pairs)).map Prod.fst = masks := by
+  constructor
+  · rw [show (fun x : A × B × C => x.2.2) = Prod.snd ∘ Prod.snd from rfl,
+      ← List.map_map, List.map_snd_zip (by simp [h1, h2]), List.map_snd_zip (by simp [h2])]
+  · rw [List.map_fst_zip (by simp [h1, h2])]
+
+/-- **the Width slicer's intervals are exactly the consecutive pairs of ONE edge list** (`starts`
+followed by `last start + width`) with the masks of those edges: so `rightOpen_partition` /
+`leftOpen_partition`, `masks_aligned`, `member_within_boundaries` and `boundaries_chained` are
+statements about what `WidthOfIntervalSlicer._slice` returns. -/
+theorem widthIntervals_spec [Add α] [Sub α] (ro : Bool) (ref : RefKind) (w hw : α) (starts data : List α)
+    (hne : starts ≠ []) :
+    (widthIntervalsOfStarts ro ref w hw starts data).map (fun iv => (iv.lo, iv.hi)) =
+        edgePairs (starts ++ [starts.getLast hne + w]) ∧
+    (widthIntervalsOfStarts ro ref w hw starts data).map (·.mask) =
+        edgeMasks ro (!ro) (!ro) (edgePairs (starts ++ [starts.getLast hne + w])) data := by
+  unfold widthIntervalsOfStarts
+  have hl : starts.getLast? = some (starts.getLast hne) := List.getLast?_eq_some_getLast hne
+  simp only [hl]
+  set pairs := edgePairs (starts ++ [starts.getLast hne + w]) with hp
+  have hplen : pairs.length = starts.length := by
+    rw [hp, edgePairs_length]; simp
+  have hmlen : (edgeMasks ro (!ro) (!ro) pairs data).length = pairs.length := by
+    simp [edgeMasks, ivPreds_length]
+  constructor
+  · rw [List.map_map]
+    exact (zip3_proj _ _ _ hmlen (by simp [hplen])).1
+  · rw [List.map_map]
+    exact (zip3_proj _ _ _ hmlen (by simp [hplen])).2
+
+/-- the same for the Number slicer: edges = `starts` followed by the upper end of the value range;
+the last interval is closed iff `include_max`. -/
+theorem numberIntervals_spec [Add α] (im : Bool) (ref : RefKind) (w hw upper : α) (starts data : List α)
+    (hne : starts ≠ []) :
+    (numberIntervalsOfStarts im ref w hw upper starts data).map (fun iv => (iv.lo, iv.hi)) =
+        edgePairs (starts ++ [upper]) ∧
+    (numberIntervalsOfStarts im ref w hw upper starts data).map (·.mask) =
+        edgeMasks true false im (edgePairs (starts ++ [upper])) data := by
+  unfold numberIntervalsOfStarts
+  have hemp : starts.isEmpty = false := by cases starts <;> simp_all
+  simp only [hemp, Bool.false_eq_true, if_false]
+  set pairs := edgePairs (starts ++ [upper]) with hp
+  have hplen : pairs.length = starts.length := by
+    rw [hp, edgePairs_length]; simp
+  have hmlen : (edgeMasks true false im pairs data).length = pairs.length := by
+    simp [edgeMasks, ivPreds_length]
+  constructor
+  · rw [List.map_map]
+    exact (zip3_proj _ _ _ hmlen (by simp [hplen])).1
+  · rw [List.map_map]
+    exact (zip3_proj _ _ _ hmlen (by simp [hplen])).2
 
 /-! ### PointsPerIntervalSlicer -/
 
